@@ -440,7 +440,25 @@ func (c *Ctx) vetoRules(a *coreAnchors) {
 			for _, g := range guardsOf(r.Block()) {
 				v, neg := stripNot(g.Cond)
 				pol := g.Pol != neg
-				if !pol && flowsFrom(v, func(x ssa.Value) bool { return isRecvFromField(x, fEnd) }) {
+				fromEnd := func(x ssa.Value) bool {
+					if isRecvFromField(x, fEnd) {
+						return true
+					}
+					// the bool handed back by the private helper that waits for the handler
+					if ex, ok := x.(*ssa.Extract); ok {
+						if hc, ok := ex.Tuple.(*ssa.Call); ok {
+							if cal := hc.Call.StaticCallee(); cal != nil && len(cal.Blocks) > 0 && c.hostedBy(cal, ph) {
+								for _, hr := range returnsOf(cal) {
+									if ex.Index < len(retVals(hr)) && flowsFrom(retVals(hr)[ex.Index], func(y ssa.Value) bool { return isRecvFromField(y, fEnd) }) {
+										return true
+									}
+								}
+							}
+						}
+					}
+					return false
+				}
+				if !pol && flowsFrom(v, fromEnd) {
 					found = true
 				}
 			}
